@@ -209,19 +209,27 @@ def work(sc):
         single.input(0, d)
     want = SC.complex_content(single.nodes[0][2])
     want_exec = len(single.nodes[0][2]["execs"])
-    fail, settled = run_on(SC.Cluster(ed, n), sc, want, want_exec, "notes")
     tcp = False
-    if fail is None and through_tcp(sc):
-        tcp = True
-        fail, s2 = run_on(SC.TcpCluster(ed, n), sc, want, want_exec, "tcp.py")
-        settled = settled and s2
+    try:
+        fail, settled = run_on(SC.Cluster(ed, n), sc, want, want_exec, "notes")
+        if fail is None and through_tcp(sc):
+            tcp = True
+            fail, s2 = run_on(SC.TcpCluster(ed, n), sc, want, want_exec, "tcp.py")
+            settled = settled and s2
+    except Exception as ex:      # noqa: the library raised while replicating run records of valid runs
+        fail, settled = dict(signature="replication-raises:%s" % type(ex).__name__, detail=None,
+                             what="%s while the cluster replicated the runs of this stream (%s): %s"
+                                  % (type(ex).__name__, "tcp.py" if tcp else "notes", str(ex)[:200])), False
     spans = len({route[i] for i in range(len(stream))}) > 1
     return fail, spans and len(want) > 0, settled, tcp
 
 
 def work_dec(case):
     cfg, n, inputs = case
-    out, eq = SC.run_deciders(cfg, n, inputs)
+    try:
+        out, eq = SC.run_deciders(cfg, n, inputs)
+    except Exception:            # noqa (reported by work() with the scenario; here: the model comparison fails)
+        return [-999], False
     return out, eq
 
 
